@@ -255,6 +255,9 @@ class FilesystemOnionService(object):
             # no service, so no uploads to wait for: stop listening
             uploaded[0].addErrback(lambda f: f.trap(defer.CancelledError))
             uploaded[0].cancel()
+            # ...and it isn't part of the configuration either
+            if fhs in config.HiddenServices:
+                config.HiddenServices.remove(fhs)
             raise
         yield uploaded[0]
         return fhs
@@ -1208,6 +1211,9 @@ class FilesystemAuthenticatedOnionService(object):
             # no service, so no uploads to wait for: stop listening
             uploaded[0].addErrback(lambda f: f.trap(defer.CancelledError))
             uploaded[0].cancel()
+            # ...and it isn't part of the configuration either
+            if fhs in config.HiddenServices:
+                config.HiddenServices.remove(fhs)
             raise
         yield uploaded[0]
         return fhs
